@@ -155,7 +155,7 @@ fn field_mut(d: &mut Def, pos: (usize, usize)) -> &mut Field {
 /// Apply one wire-altering edit to a copy of def `di`; returns the label or None if not applicable.
 fn mutate(g: &mut Gen, d: &mut Def) -> Option<String> {
     let pos = plain_field_positions(d);
-    let kinds = 10;
+    let kinds = 11;
     for _ in 0..12 {
         match g.rng.below(kinds) {
             0 => {
@@ -297,6 +297,28 @@ fn mutate(g: &mut Gen, d: &mut Def) -> Option<String> {
                     return Some("variant_inserted_versioned".into());
                 }
             }
+            9 => {
+                // a field-less variant gains a payload / a variant with fields loses it (names, order and
+                // discriminants stay the same)
+                if let DefKind::Enum { variants } = &mut d.kind {
+                    if variants.is_empty() || variants.iter().any(|v| v.discr.is_some()) {
+                        continue;
+                    }
+                    let i = g.rng.below(variants.len());
+                    if variants[i].fields.is_empty() {
+                        variants[i].shape = Shape::Tuple;
+                        variants[i].fields = vec![Field::plain("0", Ty::Prim(Prim::U32))];
+                        return Some("variant_payload_added".into());
+                    } else if variants[i].fields.iter().all(|f| f.is_live() && !f.has_version_attr())
+                        // repr(C, uN) is only legal with at least one data-carrying variant
+                        && !(matches!(d.repr, Repr::CInt(_)) && variants.iter().filter(|v| !v.fields.is_empty()).count() < 2)
+                    {
+                        variants[i].shape = Shape::Unit;
+                        variants[i].fields.clear();
+                        return Some("variant_payload_removed".into());
+                    }
+                }
+            }
             _ => {
                 // wrap a field in Option / Vec
                 if pos.is_empty() {
@@ -357,6 +379,27 @@ pub fn gen_pair_batch(seed: u64, n_base: usize) -> PairBatch {
             recursive: false,
         });
     }
+    // fixed bases for the ignored-field twins: a repr(C, u8) enum with a two-field named variant and a
+    // repr(C) struct (definitions whose schema records field offsets)
+    g.push(Def {
+        name: "BCIEnum".into(),
+        repr: Repr::CInt(Prim::U8),
+        kind: DefKind::Enum {
+            variants: vec![
+                VariantDef { name: "V0".into(), shape: Shape::Named, fields: vec![Field::plain("f0", Ty::Prim(Prim::U32)), Field::plain("f1", Ty::Prim(Prim::U16))], discr: None, vfrom: 0, vto: None },
+                VariantDef { name: "V1".into(), shape: Shape::Unit, fields: vec![], discr: None, vfrom: 0, vto: None },
+            ],
+        },
+        params: 0,
+        recursive: false,
+    });
+    g.push(Def {
+        name: "BCIStruct".into(),
+        repr: Repr::C,
+        kind: DefKind::Struct { shape: Shape::Named, fields: vec![Field::plain("f0", Ty::Prim(Prim::U32)), Field::plain("f1", Ty::Prim(Prim::U16)), Field::plain("f2", Ty::Prim(Prim::U8))] },
+        params: 0,
+        recursive: false,
+    });
     // base definitions: same mix as the data batches (without generics/recursion)
     while g.uni.defs.len() < n_base {
         match g.rng.weighted(&[20, 12, 12, 30, 16, 6]) {
@@ -409,6 +452,45 @@ pub fn gen_pair_batch(seed: u64, n_base: usize) -> PairBatch {
                     roots.push(Root { ty: Ty::Def(ob, vec![]), class: "nested.mut".into() });
                     pairs.push(PairSpec { a: roots.len() - 2, b: roots.len() - 1, rel: format!("mut.nested.{}", label), must_accept: false });
                     *stats.entry("pair.mut.nested".into()).or_insert(0) += 1;
+                }
+            }
+        }
+        // same wire format, different memory representation: an ignored field (in memory, never on the
+        // wire) at different positions (C11: must not be passed by reference; C05: loads to the same value)
+        {
+            let place = |d: &Def, at_end: bool, name: String| -> Option<Def> {
+                let mut t = d.clone();
+                t.name = name;
+                let ins = |fields: &mut Vec<Field>| -> bool {
+                    if fields.len() < 2 || fields.iter().any(|f| f.ignore) {
+                        return false;
+                    }
+                    let mut ig = Field::plain("ign", Ty::Prim(Prim::U32));
+                    ig.ignore = true;
+                    let at = if at_end { fields.len() } else { 1 };
+                    fields.insert(at, ig);
+                    true
+                };
+                let ok = match &mut t.kind {
+                    DefKind::Struct { shape: Shape::Named, fields } if t.repr != Repr::Transparent => ins(fields),
+                    DefKind::Enum { variants } => match variants.iter_mut().find(|v| v.shape == Shape::Named && v.fields.len() >= 2) {
+                        Some(v) => ins(&mut v.fields),
+                        None => false,
+                    },
+                    _ => false,
+                };
+                if ok { Some(t) } else { None }
+            };
+            // (only where the declaration order fixes the layout: repr(Rust) may well place the two the same way)
+            let order_fixed = matches!(base.repr, Repr::C | Repr::CInt(_) | Repr::CAlign(_));
+            if order_fixed && (base.name.starts_with("BCI") || g.rng.chance(2, 3)) {
+                if let (Some(ta), Some(tb)) = (place(&base, false, format!("{}IgA", base.name)), place(&base, true, format!("{}IgB", base.name))) {
+                    let ia = g.push(ta);
+                    let ib = g.push(tb);
+                    roots.push(Root { ty: Ty::Def(ia, vec![]), class: "twin.ignored_field_position".into() });
+                    roots.push(Root { ty: Ty::Def(ib, vec![]), class: "twin.ignored_field_position".into() });
+                    pairs.push(PairSpec { a: roots.len() - 2, b: roots.len() - 1, rel: "layout.ignored_field_position".into(), must_accept: false });
+                    *stats.entry("pair.layout.ignored_field_position".into()).or_insert(0) += 1;
                 }
             }
         }
